@@ -6,6 +6,13 @@ TRUST = ('Trusted: rustc MIR lowering (nightly dump of the current tree), the MI
          'against the native build), z3; the chain model (funds before execute, depth-first messages, rollback on error) is assumed. ')
 
 CLAIMED = {
+    'C01': dict(
+        text='Inductive step obligations: from any state in which the pool manager holds, per denom, the summed reserves of two pools sharing a denom plus a '
+             'symbolic non-negative excess (and per pool the locked 1000 LP plus excess), every operation reached through the public messages (swap, two-asset '
+             'deposit, single-asset deposit via sub-message + reply, withdrawal; routed swaps in the thorough tier) leaves balance - reserves equal to the same '
+             'excess (plus amount mod 2 for single-asset deposits) and the LP holdings unchanged. One step from an arbitrary invariant state covers histories of any length.',
+        ref='DESIGN.md §6 C01',
+        note=TRUST + 'Pool creation (nothing kept) and first deposits (minimum liquidity locked) are discharged under C16 / C02; rejected operations change nothing by the rollback rule.'),
     'C02': dict(
         text='Step obligations on the real provide_liquidity / withdraw_liquidity reached through the public execute entry point, from an arbitrary '
              'funded or empty constant-product pool (reserves, LP supply, deposits, LP amounts full 128-bit symbols): mint formulas, '
@@ -75,6 +82,18 @@ CLAIMED = {
              'tolerance > 1 refused.',
         ref='DESIGN.md §6 C13',
         note=TRUST + 'Stableswap deposit tolerance and mixed-decimals slippage units are tracked as findings (see DESIGN.md).'),
+    'C14': dict(
+        text='Relational obligation: from one symbolic funded two-asset pool the real single-asset chain (execute -> self Swap sub-message -> reply -> self '
+             'ProvideLiquidity) and the manual sequence Swap(half) + ProvideLiquidity(half, proceeds) are both executed; reserves, LP minted to the sender, fees and '
+             'balances are equal, the leftover is amount mod 2, the temporary buffer is gone; refusals on empty / 3-asset pools and when locking for another receiver.',
+        ref='DESIGN.md §6 C14',
+        note=TRUST + 'Constant-product pools; the farm-manager leg of locked deposits is covered on the farm-manager side (C08).'),
+    'C15': dict(
+        text='Complete case split (contract x privileged message x sender role x pending transfer x funds), each case decided on the real dispatchers and the '
+             'cw-ownable / mantra-utils code executed from their MIR: accepted only from the authorised role and without funds, storage unchanged on rejection, '
+             'ownership moves only by propose + accept or ends by renounce.',
+        ref='DESIGN.md §6 C15',
+        note=TRUST + 'Farm / position authorisations are part of C08 and C11.'),
     'C16': dict(
         text='create_pool executed through the public CreatePool message with symbolic creation fee, token-factory fee coins (none / other denom / same '
              'denom / both) and arbitrary attached amounts: accepted iff funds equal exactly the required fees, fee routed to the collector, nothing kept, '
